@@ -153,6 +153,10 @@ func (ot *originTracer) origins(v ssa.Value, b *bindings, depth int) []Origin {
 				return ot.origins(a, b.caller, depth)
 			}
 		}
+		if x.Parent() != nil && x.Parent().Parent() != nil {
+			// parameter of a function literal: its values are the arguments at the literal's call sites
+			return ot.closureParamOrigins(x, depth)
+		}
 		return []Origin{{Kind: OParam, Param: x}}
 	case *ssa.FreeVar:
 		if b != nil {
@@ -234,6 +238,105 @@ func fieldOf(t types.Type, idx int) *types.Var {
 		return st.Field(idx)
 	}
 	return nil
+}
+
+// closureParamOrigins resolves a parameter of a function literal to the arguments it can be called with:
+// the literal is followed from its creation to direct calls and, when it is handed to an in-repo function
+// as an argument, to the calls of that function's parameter (also through further hand-overs and recursion).
+// Any other use of the literal (stored, returned, sent, handed to an external function) is UNKNOWN.
+func (ot *originTracer) closureParamOrigins(p *ssa.Parameter, depth int) []Origin {
+	f := p.Parent()
+	idx := -1
+	for i, q := range f.Params {
+		if q == p {
+			idx = i
+		}
+	}
+	parent := f.Parent()
+	if idx < 0 || parent == nil {
+		return []Origin{{Kind: OUnknown, Desc: "literal parameter " + p.Name()}}
+	}
+	var out []Origin
+	var vals []ssa.Value
+	for _, g := range withAnon(parent) {
+		for _, blk := range g.Blocks {
+			for _, ins := range blk.Instrs {
+				if mc, ok := ins.(*ssa.MakeClosure); ok && mc.Fn == f {
+					vals = append(vals, mc)
+				}
+				for _, op := range ins.Operands(nil) {
+					if *op == ssa.Value(f) {
+						if _, isMC := ins.(*ssa.MakeClosure); !isMC {
+							out = append(out, ot.useOfFuncValue(f, ins, idx, depth, map[string]bool{})...)
+						}
+					}
+				}
+			}
+		}
+	}
+	for _, v := range vals {
+		refs := v.Referrers()
+		if refs == nil {
+			out = append(out, Origin{Kind: OUnknown, Desc: "literal without referrers"})
+			continue
+		}
+		for _, ref := range *refs {
+			out = append(out, ot.useOfFuncValue(v, ref, idx, depth, map[string]bool{})...)
+		}
+	}
+	if len(out) == 0 {
+		out = append(out, Origin{Kind: OFresh, Desc: "literal never called"})
+	}
+	return out
+}
+
+// useOfFuncValue: one use (instruction ins) of the function value fv; idx is the parameter of interest.
+func (ot *originTracer) useOfFuncValue(fv ssa.Value, ins ssa.Instruction, idx, depth int, seen map[string]bool) []Origin {
+	ci, ok := ins.(ssa.CallInstruction)
+	if !ok {
+		if _, isDbg := ins.(*ssa.DebugRef); isDbg {
+			return nil
+		}
+		return []Origin{{Kind: OUnknown, Desc: fmt.Sprintf("function value escapes through %T", ins)}}
+	}
+	com := ci.Common()
+	var out []Origin
+	if com.Value == fv && !com.IsInvoke() {
+		if idx < len(com.Args) {
+			out = append(out, ot.origins(com.Args[idx], nil, depth+1)...)
+		}
+	}
+	for j, a := range com.Args {
+		if a != fv {
+			continue
+		}
+		callee := com.StaticCallee()
+		if callee == nil || callee.Blocks == nil || callee.Pkg == nil || !strings.HasPrefix(callee.Pkg.Pkg.Path(), modPath) || j >= len(callee.Params) {
+			out = append(out, Origin{Kind: OUnknown, Desc: "function value handed to an unresolved or external callee"})
+			continue
+		}
+		out = append(out, ot.paramCallArgs(callee, j, idx, depth, seen)...)
+	}
+	return out
+}
+
+// paramCallArgs: origins of argument idx at every call of parameter j of g (transitively through hand-overs).
+func (ot *originTracer) paramCallArgs(g *ssa.Function, j, idx, depth int, seen map[string]bool) []Origin {
+	key := fmt.Sprintf("%p/%d", g, j)
+	if seen[key] {
+		return nil
+	}
+	seen[key] = true
+	pv := g.Params[j]
+	refs := pv.Referrers()
+	var out []Origin
+	if refs == nil {
+		return nil
+	}
+	for _, ref := range *refs {
+		out = append(out, ot.useOfFuncValue(pv, ref, idx, depth, seen)...)
+	}
+	return out
 }
 
 // storedInto: union of the origins of all values stored into the cell (in fn and its closures).
